@@ -458,7 +458,11 @@ func deriveEvent(tw *traceWriter, m *ordered.Map[string, string]) {
 		bad.Set("~~not-a-string", 42)
 		_, berr := ordered.AssertValues[string](bad)
 		ev["assertbadok"] = berr == nil
-		rec, _ := ordered.ToMapRecursive(sa).(map[string]any)
+		var recSrc *ordered.MapSA = sa
+		if m == nil {
+			recSrc = nil // a typed nil map, as ToMap accepts
+		}
+		rec, _ := ordered.ToMapRecursive(recSrc).(map[string]any)
 		tl := [][2]string{}
 		for k, v := range rec {
 			s, _ := v.(string)
@@ -781,8 +785,8 @@ func c05Random(tw *traceWriter, fl flags, seed int64, sum obj) {
 				}
 				renameEvent(tw, m, f, flist)
 			}
-			if ss, ok := m.(mapSS); ok && ss.m != nil && rng.Intn(700) == 0 {
-				deriveEvent(tw, ss.m)
+			if ss, ok := m.(mapSS); ok && (ss.m != nil && rng.Intn(700) == 0 || ss.m == nil && rng.Intn(40) == 0) {
+				deriveEvent(tw, ss.m) // also on a nil map: the derived-map API accepts it like every observer does
 			}
 			if rng.Intn(500) == 0 {
 				obsKeys := alphabet
